@@ -198,6 +198,9 @@ def short(h):
     return (mod[0].replace("verif_", "") + "::" if mod else "") + parts[-1]
 
 
+PANICS_ARE_OWN = ("C01", "C19", "C20")
+
+
 def own_oracle(prop, desc):
     return desc.startswith(prop + " ")
 
@@ -247,8 +250,9 @@ def classify(prop, job, r):
                 info.setdefault("special", []).append(d)
             elif own_oracle(prop, d):
                 info["failed_own"].append(d)
-            elif prop == "C01" and not is_other_oracle(d):
-                # panics, pointer checks, CheckLock discipline: all belong to C01
+            elif prop in PANICS_ARE_OWN and not is_other_oracle(d):
+                # C01: panics, pointer checks, CheckLock discipline. C19/C20: the data structures' own debug assertions
+                # about their links, and any fault inside them, are violations of "links stay mutually consistent"
                 info["failed_own"].append(d)
             else:
                 info["failed_other"].append(d)
@@ -559,7 +563,7 @@ def write_evidence(ctx, spec, results, samples, t_start, status, violations, val
                     covers.add((name, c["desc"]))
                 continue
             if c["status"] == "SUCCESS" and (own_oracle(prop, c["desc"]) or
-                                             (prop == "C01" and not is_other_oracle(c["desc"]))):
+                                             (prop in PANICS_ARE_OWN and not is_other_oracle(c["desc"]))):
                 oracle_held.add((name, c["desc"], c["loc"].split(" in function")[0]))
             m = re.search(r"in function (.*)$", c["loc"])
             if m and ("verif" not in m.group(1)) and (c["loc"].startswith("src/") or "/repo/src" in c["loc"]):
